@@ -26,7 +26,7 @@ from graphql import (
     is_required_input_field,
 )
 
-STRLIT_CLEAN = ["plain", "hash", "equals", "braces", "dquote_escaped", "backslash", "unicode_escape", "non_ascii", "empty", "inner_whitespace", "unicode_line_boundary"]
+STRLIT_CLEAN = ["plain", "hash", "equals", "braces", "dquote_escaped", "backslash", "unicode_escape", "non_ascii", "empty", "inner_whitespace", "unicode_line_boundary", "long_prose"]
 STRLIT = {
     "plain": ['"hello world"', '"abc123"'],
     "hash": ['"a # not a comment"'],
@@ -39,6 +39,9 @@ STRLIT = {
     "empty": ['""'],
     # characters that Python's str.splitlines() treats as line boundaries although GraphQL does not (raw inside the literal)
     "unicode_line_boundary": ['"x\u2028y"', '"p\u0085q"', '"form\x0cfeed"', '"a\u2029b\x1cc"'],
+    # longer than any line a formatter would leave alone: prose with spaces, commas and hyphens (every character of it is part of the value)
+    "long_prose": ['"' + " ".join(["lorem ipsum dolor sit amet, consectetur adipiscing elit - sed do eiusmod tempor"] * 3) + '"',
+                   '"' + "word " * 60 + 'end"', '"' + "x" * 300 + '"'],
     "inner_whitespace": ['"salt  and   pepper"', '"  leading and trailing  "', '"a    b"'],
     "single_quote": ['"it\'s"', '"\'quoted\'"'],
     "escape_n": ['"line1\\nline2"', '"tab\\there"'],
@@ -523,7 +526,8 @@ class OpGen:
         return "%s %s%s%s { %s }" % (kind, name, vars_s, optag, " ".join(sels))
 
 
-OP_NAMES = ["GetThing", "listItems", "fetch_all", "DoURLStuff", "op", "Run2Things", "XMLQuery", "getA"]
+OP_NAMES = ["GetThing", "listItems", "fetch_all", "DoURLStuff", "op", "Run2Things", "XMLQuery", "getA",
+            "GetEveryAccountHolderWithTheirPendingInvoicesAndOutstandingBalancesGroupedByBillingPeriodAndCurrency"]  # (longer than most file-name conventions expect)
 
 
 def generate_document(schema: GraphQLSchema, seed: int, dirty: Optional[Set[str]] = None, n_ops: int = 3, max_depth: int = 3,
